@@ -165,6 +165,19 @@ def compare(exp, obs, ref, impl, check_store=True, async_phase=True):
     r = match_groups(exp.groups, obs.groups)
     if r:
         return "trace: " + r
+    if impl.env.deep:
+        for o in impl.env.flat:
+            if o.active is None or o.cur is None:
+                continue
+            try:
+                want = (impl.built.m.by_value(o.cur).id,)
+            except KeyError:
+                want = ()
+            if o.active != want:
+                return (f"is_active seen inside {o.brief()}: expected exactly {want} active, "
+                        f"observed {o.active}")
+        if impl.env.notes:
+            return f"inside callbacks: {impl.env.notes[:3]}"
     if impl.cfg.engine == "async" and async_phase:
         r = phase_discipline(exp.groups, obs.groups)
         if r:
